@@ -52,6 +52,7 @@ var (
 	c12wrongLen    = core.RegCounter("c12.wrong_length_encodings_offered_to_decoders")
 	c12skEdits     = core.RegCounter("c12.byzantine_secret_key_and_keypair_encodings")
 	c12reuse       = core.RegCounter("c12.transcript_objects_reused_across_verify_and_add")
+	c12rx          = core.RegCounter("c12.tuples_decoded_out_of_one_reused_receive_buffer")
 	c12recycled    = core.RegCounter("c12.tuples_also_decoded_into_receivers_used_before")
 )
 
@@ -715,14 +716,27 @@ func runC12(e *Env, r *core.Run) {
 	var recPK sr25519.PublicKey
 	var recSig sr25519.Signature
 	recycle := t.W(2) == 1
+	rxOn := t.W(2) == 1
+	var rx []byte
 	for i, tp := range tuples {
 		if len(r.Main.Fails()) > 0 {
 			return
 		}
 		r.AddSteps(1)
 		tp.want = srModelVerify(tp.src.model(), tp.pk, tp.sig)
-		lsig, serr := sr25519.NewSignatureFromBytes(tp.sig)
-		lpk, perr := sr25519.NewPublicKeyFromBytes(tp.pk)
+		// in half of the runs every tuple is decoded out of the same receive buffer: the decoded objects are
+		// used again later (batch history), long after the buffer holds other tuples
+		wsig, wpk := tp.sig, tp.pk
+		if rxOn {
+			if cap(rx) < len(tp.sig)+len(tp.pk) {
+				rx = make([]byte, 2*(len(tp.sig)+len(tp.pk))+64)
+			}
+			wsig = rx[:copy(rx, tp.sig)]
+			wpk = rx[len(tp.sig) : len(tp.sig)+copy(rx[len(tp.sig):], tp.pk)]
+			r.Count(c12rx)
+		}
+		lsig, serr := sr25519.NewSignatureFromBytes(wsig)
+		lpk, perr := sr25519.NewPublicKeyFromBytes(wpk)
 		tp.decodeOK = serr == nil && perr == nil
 		// decoder rules the statement lists
 		switch tp.how {
